@@ -130,3 +130,24 @@ Proof. destruct p; eexists; eexists; repeat split; try (vm_compute; reflexivity)
 Lemma bind_failure_drains p : drain_returns2 (sys2_init p false) = true /\
   forall i, step2 (sys2_init p false) (AcceptRet i) = None.
 Proof. split; [reflexivity|]. intros i. reflexivity. Qed.
+
+(** How the coarse model (Model/Lifecycle.v, [drain_exact]) relates to the code: its counter is the
+    SESSIONS' part of Server.wg, exact in every reachable state … *)
+Theorem session_counts_exact :
+  forall p b acts y, run2 (sys2_init p b) acts = Some y ->
+    (wg (sv (base y)) = O <-> forall i s, In (i, s) (ss (sv (base y))) -> alive s = false).
+Proof.
+  intros p b acts y R. pose proof (inv2_run acts _ _ (inv2_init p b) R) as [C _ _].
+  rewrite C. apply total_zero.
+Qed.
+
+(** … and its [drain_returns] is the code's Drain exactly in the states in which the accept loop has
+    exited (or never ran); while the loop runs the code's Drain blocks whatever the sessions do. *)
+Theorem coarse_drain_applies_after_loop_exit :
+  forall y, (serving y = false -> drain_returns2 y = drain_returns (base y)) /\
+            (serving y = true -> drain_returns2 y = false).
+Proof.
+  intros y. unfold drain_returns2, wg2, drain_returns. split; intros ->.
+  - rewrite Nat.add_0_r. reflexivity.
+  - apply Nat.eqb_neq. lia.
+Qed.
